@@ -275,7 +275,7 @@ def judge(pid, tier, seed, t0, builds, results, nd=()):
         # known findings: rerun with the witness excluded
         kf_hit = None
         for kf in known:
-            if kf.get('status') == 'open' and kf.get('property') == pid and kf.get('function') == fn:
+            if kf.get('status') == 'open' and (kf.get('property') == pid or pid in kf.get('also', [])) and kf.get('function') == fn:
                 try:
                     R2 = pipeline.run_function(ub, fs, tier=tier, extra_defs=('KF_EXCLUDE_%s=1' % kf['id'],))
                 except Undecided as e:
